@@ -246,6 +246,9 @@ func (c *Conn) noteHanded() {
 		if c.handIdx == 0 {
 			c.ConnackStep = c.w.Steps
 		}
+		if h, ok := c.w.X.(interface{ OnHanded(*Conn, int) }); ok {
+			h.OnHanded(c, c.handIdx)
+		}
 		c.handIdx++
 	}
 }
